@@ -56,9 +56,16 @@ THsaw == /\ Ev("hsaw") /\ HRun /\ Cur.ids = hsaw'.ids /\ Visible(sc.reqhdr, Cur.
 \* "peer" scenarios: the other side is the reference codec acting as a conformant foreign implementation that
 \* uses the freedoms the protocols leave (which messages to compress, casing, padding ...): C05's converse
 IsPeer == "peer" \in DOMAIN sc /\ sc.peer # ""
+\* a broken peer that ends the response without the protocol's terminator (C06 / C13: the failure stays with its call)
+Dropped == IsPeer /\ "DropStatus" \in DOMAIN sc.choices /\ sc.choices.DropStatus /\ ~IsUnaryConnect(sc)
+TRespDropped == Ev("resp") /\ Dropped /\ HResp /\ Cur.status = 200
+TCsawDropped == /\ Ev("csaw") /\ Dropped /\ CSee
+                /\ ~Cur.ok /\ Cur.err.code \in 1..16
+                /\ Cur.meta_call \in {"own", "absent"}  \* never another call's response headers
+                /\ IsPrefix(Cur.ids, Ids(sc.resp))
 \* the response on the wire
 TResp ==
-  /\ Ev("resp") /\ HResp
+  /\ Ev("resp") /\ ~Dropped /\ HResp
   /\ Cur.problems = <<>>
   /\ Cur.status = wresp'.status /\ Cur.ctype = wresp'.ctype
   /\ Cur.ids = wresp'.ids
@@ -79,7 +86,8 @@ TResp ==
 
 \* what the client's API yielded
 TCsaw ==
-  /\ Ev("csaw") /\ CSee
+  /\ Ev("csaw") /\ ~Dropped /\ CSee
+  /\ ("meta_call" \in DOMAIN Cur => Cur.meta_call \in {"na", "own", "absent"})
   /\ Cur.ok = csaw'.ok
   /\ Cur.ids = csaw'.ids
   \* C13: what the application was handed is still intact when it looks again later
@@ -92,7 +100,7 @@ TCsaw ==
                         /\ Cur.err.details = Details(csaw'.ndet)
                         /\ Visible(csaw'.meta, Cur.err.meta))
 
-Normal == TReset \/ ((TReq \/ TCsend \/ THneg \/ THsaw \/ TResp \/ TCsaw) /\ Consume /\ UNCHANGED failed)
+Normal == TReset \/ ((TReq \/ TCsend \/ THneg \/ THsaw \/ TResp \/ TCsaw \/ TRespDropped \/ TCsawDropped) /\ Consume /\ UNCHANGED failed)
 TraceNext == \/ (~failed /\ Normal)
              \/ (~failed /\ ~ENABLED Normal /\ Reject /\ UNCHANGED vars)
              \/ (SkipRest /\ UNCHANGED vars)
